@@ -197,7 +197,7 @@ int read_hex(const char *filename, Memory *memory)
   memory->low_address = start;
   memory->high_address = end;
 
-  return start_address;
+  return 0;
 }
 
 
